@@ -207,15 +207,30 @@ def wl_evaluators(p):
 
 
 def draw_sdmx_params(rng):
+    p = _draw_sdmx_params(rng)
+    if p["cutoff"] is not None and rng.chance(0.7):
+        # a threshold only screens when whole blocks of points are far from an atom
+        p["spread"] = rng.choice([4.0, 8.0])
+        p["order"] = "radial"
+    return p
+
+
+def _draw_sdmx_params(rng):
     return {
         "kind": rng.choice(SDMX_KINDS),
         "sseed": rng.below(10**6),
         "mol": rng.choice(TINY_MOLS),
-        "basis": rng.choice(["sto-3g", "6-31g", "def2-svp"]),
+        # (generally contracted sets: several radial functions per shell)
+        "basis": rng.choice(["sto-3g", "6-31g", "def2-svp", "ano@3s2p", "ano@2s2p", "cc-pvdz"]),
         "ngrids": _size(rng, [1, 3, 16, 57, 112, 200], 520),
         "nspin": rng.choice([1, 2]),
         "nset": rng.choice([1, 2]),
         "dseed": rng.below(10**6),
+        # the caller's screening threshold (a public option of get_features / get_cao): blocks of
+        # grid points on which a shell is negligible are skipped
+        "cutoff": rng.choice([None, None, 1e-13, 1e-8, 1e-5, 1e-3]),
+        "spread": rng.choice([1.5, 1.5, 4.0, 8.0]),
+        "order": rng.choice(["random", "radial"]),
     }
 
 
@@ -229,7 +244,9 @@ def wl_sdmx(p):
     gen = EXXSphGenerator.from_settings_and_mol(st.sdmx_settings, p["nspin"], mol)
     phase()
     nprng = np.random.default_rng(p["dseed"])
-    coords = nprng.normal(size=(p["ngrids"], 3)) * 1.5
+    coords = nprng.normal(size=(p["ngrids"], 3)) * p.get("spread", 1.5)
+    if p.get("order") == "radial":
+        coords = np.ascontiguousarray(coords[np.argsort(np.linalg.norm(coords, axis=1))])
     nao = mol.nao_nr()
     out = {}
     nd = p["nset"] * p["nspin"]
@@ -240,7 +257,7 @@ def wl_sdmx(p):
     dms = np.ascontiguousarray(np.stack(dms))
     if nd == 1:
         dms = dms[0]
-    feat = gen.get_features(dms, mol, coords)
+    feat = gen.get_features(dms, mol, coords, cutoff=p.get("cutoff"))
     out["feat"] = feat
     vgrid = nprng.normal(size=feat.shape)
     vmat = np.zeros(dms.shape)
